@@ -334,6 +334,9 @@ func genC07(r *rand.Rand, tier string, idx int) *World {
 		w.EDS[0].Templates["A^"] = &c
 		w.Extra["c07target"] = "A^"
 	}
+	if chance(r, 0.1) {
+		w.Extra["malformedReplicas"] = "1"
+	}
 	if w.Extra["failHow"] != "storm" && chance(r, 0.25) {
 		// a broken release: the canary pods never become Ready; after the failure they are unavailable
 		// outdated pods, possibly the only outdated ones left
@@ -391,6 +394,14 @@ func bodyC07(s *Sim) {
 		s.Probe("c07.no-canary-at-fail-time")
 	} else {
 		s.Stats.NonVacuous["C07.failed-canary"]++
+		if s.W.Extra["malformedReplicas"] == "1" && e.Spec.Strategy.Canary != nil {
+			// somebody edits canary.replicas into something that is not a number or a percentage while
+			// the canary runs: node selection fails from then on, the rollback of a failed canary must not
+			e.Spec.Strategy.Canary.Replicas = intOrStr("50 %")
+			s.Store.ForceUpdate(e)
+			s.logf("env user.canary-replicas '50 %%'")
+			s.Stats.NonVacuous["C07.malformed-replicas"]++
+		}
 		switch s.W.Extra["failHow"] {
 		case "cli-paused":
 			s.RunCLI("canary-pause", key)
@@ -1223,6 +1234,15 @@ func bodyC08(s *Sim) {
 		}
 		s.Round(r)
 		s.Round(r)
+		if keep != "" && r.IntN(2) == 0 {
+			// the user switches auto-pause off before unpausing the canary that had paused itself
+			if e2 := s.Store.GetEDS(def.NS, def.Name); e2 != nil && e2.Spec.Strategy.Canary != nil && e2.Spec.Strategy.Canary.AutoPause != nil {
+				e2.Spec.Strategy.Canary.AutoPause.Enabled = edsv1.NewBool(false)
+				s.Store.ForceUpdate(e2)
+				s.logf("env user.autopause-off")
+				s.Stats.NonVacuous["C08.autopause-switched-off"]++
+			}
+		}
 		// unpause
 		if pick(r, "cli", "annotation") == "cli" {
 			if t := s.RunCLI("canary-unpause", key); t.Err != nil {
@@ -1246,6 +1266,16 @@ func bodyC08(s *Sim) {
 			break
 		}
 		s.Stats.NonVacuous["C08.unpause"]++
+		lastEDSOK := false
+		for i := len(s.tasks) - 1; i >= 0; i-- {
+			if t := s.tasks[i]; t.Ctrl == CtrlEDS && t.Key == key {
+				lastEDSOK = t.Done && t.Err == nil && t.Panic == nil // (a reconcile that reports an error, e.g. too few valid canary nodes, writes no status)
+				break
+			}
+		}
+		if lastEDSOK && annTrue(e.Annotations, edsv1.ExtendedDaemonSetCanaryUnpausedAnnotationKey) && !annTrue(e.Annotations, edsv1.ExtendedDaemonSetCanaryPausedAnnotationKey) && (e.Status.State == edsv1.ExtendedDaemonSetStatusStateCanaryPaused || ersCondTrue(&cr.Status, edsv1.ConditionTypeCanaryPaused)) {
+			s.Violate("C08", "canary-resume", "state-stuck", "8 rounds after the canary was unpaused (canary-unpaused=true, canary-paused not true, not failed) the state is %q and the replica set's Canary-Paused condition is %v", e.Status.State, ersCondTrue(&cr.Status, edsv1.ConditionTypeCanaryPaused))
+		}
 		for _, cn := range e.Status.Canary.Nodes {
 			n := s.Store.GetNode(cn)
 			if n == nil || !eligibleSpec(n, &cr.Spec.Template.Spec) {
